@@ -44,6 +44,7 @@ func (r *ObRun) setup() *Ctx {
 	c.mode = r.attr("mode", "bv")
 	c.maxUnroll = atoiDef(r.attr("maxunroll", ""), 5000)
 	c.feasAfter = atoiDef(r.attr("feas", ""), 0)
+	c.maxInstr = int64(atoiDef(r.attr("maxinstr", ""), 0))
 	c.trace = verbose
 	if ap := r.attr("allowpanic", ""); ap != "" {
 		c.allowPanic = regexp.MustCompile(ap)
@@ -193,18 +194,24 @@ func (r *ObRun) discharge(timeout time.Duration, workers int) {
 	}
 }
 
+var selfCheckSamples = 6
+var searchSamples = 400
+var runSeed int64
+
 func dischargeOne(ob *Oblig, mode string, solvers []string, timeout time.Duration, inputs []*Term) {
+	start := time.Now()
+	defer func() { ob.Secs = time.Since(start).Seconds() }()
 	defer func() {
 		if rec := recover(); rec != nil {
 			if ee, ok := rec.(execError); ok {
 				ob.Verdict = "inconclusive"
 				ob.Note = "encoding: " + ee.msg
+				refuteBySearch(ob)
 				return
 			}
 			panic(rec)
 		}
 	}()
-	start := time.Now()
 	var roots []*Term
 	if ob.Kind == "reach" {
 		roots = []*Term{ob.Hyp}
@@ -241,10 +248,24 @@ func dischargeOne(ob *Oblig, mode string, solvers []string, timeout time.Duratio
 		for _, t := range flattenAnd(ob.Hyp) {
 			iroots = append(iroots, tr.hyp(t))
 		}
+		var g *Term
 		if ob.Kind != "reach" {
-			iroots = append(iroots, Not(tr.boolean(ob.Goal)))
+			g = tr.boolean(ob.Goal)
 		}
-		iroots = append(iroots, tr.side...)
+		if err := selfCheckInt(ob, tr, selfCheckSamples, runSeed); err != nil {
+			ob.Verdict = "inconclusive"
+			ob.Note = "ENCODER SELF-CHECK FAILED: " + err.Error()
+			return
+		}
+		if g != nil {
+			if g.IsTrue() {
+				ob.Verdict = "discharged"
+				ob.Solver = "normaliser"
+				return
+			}
+			iroots = append(iroots, Not(g))
+		}
+		iroots = append(iroots, tr.sideConstraints(iroots)...)
 		script = SMTScript(iroots)
 		vars = termVars(iroots...)
 		if len(vars) > 400 {
@@ -255,7 +276,6 @@ func dischargeOne(ob *Oblig, mode string, solvers []string, timeout time.Duratio
 		vars = termVars(roots...)
 	}
 	res := Solve(script, vars, timeout, solvers)
-	ob.Secs = time.Since(start).Seconds()
 	ob.Solver = res.Solver
 	switch res.Status {
 	case "unsat":
@@ -274,6 +294,61 @@ func dischargeOne(ob *Oblig, mode string, solvers []string, timeout time.Duratio
 	default:
 		ob.Verdict = "inconclusive"
 		ob.Note = "solver: " + res.Status + " " + res.Err
+		refuteBySearch(ob)
+	}
+}
+
+// refuteBySearch: after unknown / untranslatable, look for a concrete input that violates the obligation.
+// Its only purpose is to obtain a replayable input; the native replay decides.
+func refuteBySearch(ob *Oblig) {
+	if ob.Kind == "reach" {
+		return
+	}
+	if m := concreteSearch(ob, searchSamples, runSeed); m != nil {
+		ob.Verdict = "refuted"
+		ob.Solver = "concrete-search(after " + ob.Note + ")"
+		ob.Model = m
+	}
+}
+
+// refuteWithoutContracts: when a run that relies on contracts is inconclusive (engine error, untranslatable
+// operation, solver unknown), execute the harness again with every call going to the real code and search
+// for a concrete violating input. Only refutations are taken from this pass, never discharges.
+func (r *ObRun) refuteWithoutContracts() {
+	need := r.Err != ""
+	for _, ob := range r.Obs {
+		if ob.Verdict == "inconclusive" {
+			need = true
+		}
+	}
+	if !need || (len(r.Uses) == 0 && r.Err == "") || r.attr("use", "") == "" {
+		return
+	}
+	d2 := *r.Dir
+	d2.Attrs = map[string]string{}
+	for k, v := range r.Dir.Attrs {
+		d2.Attrs[k] = v
+	}
+	d2.Attrs["use"] = ""
+	d2.Attrs["maxinstr"] = "3000000"
+	r2 := &ObRun{Dir: &d2, Ld: r.Ld, Cases: r.Cases, Name: r.Name}
+	r2.execute()
+	if r2.Err != "" {
+		return
+	}
+	for _, ob := range r2.Obs {
+		if ob.Kind == "reach" {
+			continue
+		}
+		if m := concreteSearch(ob, searchSamples, runSeed); m != nil {
+			ob.Verdict = "refuted"
+			ob.Solver = "concrete-search(contracts off)"
+			ob.Model = m
+			ob.Concrete = true
+			ob.Mode = r.attr("mode", "bv")
+			r.Obs = append(r.Obs, ob)
+			return
+		}
 	}
 }
 
